@@ -53,7 +53,7 @@ func (r *Report) restrict(rules []string) {
 	if len(rules) == 0 {
 		return
 	}
-	r.only = map[string]bool{"framework": true, "anchor": true}
+	r.only = map[string]bool{"framework": true, "anchor": true, "CTRL": true}
 	for _, id := range rules {
 		r.only[id] = true
 	}
